@@ -108,7 +108,7 @@ func (b *Backend) NConns() int {
 func (b *Backend) Conn(i int) *BConn {
 	b.mu.Lock()
 	defer b.mu.Unlock()
-	if i < len(b.cs) {
+	if i >= 0 && i < len(b.cs) {
 		return b.cs[i]
 	}
 	return nil
